@@ -244,6 +244,7 @@ func cmdCheck(args []string) {
 			cfg.Disable[d] = true
 		}
 		ld.disable = cfg.Disable
+		var selected []*ssa.Function
 		for _, fn := range entries {
 			if *tier == "quick" && quickRe != nil && !quickRe.MatchString(fn.Name()) {
 				continue
@@ -251,10 +252,16 @@ func cmdCheck(args []string) {
 			if onlyRe != nil && !onlyRe.MatchString(fn.Name()) {
 				continue
 			}
+			selected = append(selected, fn)
+		}
+		for fi, fn := range selected {
 			collectReach(fn, staticReach, map[*ssa.Function]bool{})
-			remaining := time.Until(deadline)
-			if remaining < 5*time.Second {
-				remaining = 5 * time.Second
+			// fair share of the remaining budget (x1.5), so that one slow
+			// harness cannot starve the others
+			left := len(selected) - fi + (len(pc.Groups)-gi-1)*2
+			remaining := time.Until(deadline) * 3 / time.Duration(2*left)
+			if remaining < 10*time.Second {
+				remaining = 10 * time.Second
 			}
 			hr := runHarness(ld, cfg, pkg, fn, *jobs, time.Now().Add(remaining), g.MaxPaths)
 			hr.Group = gi
